@@ -193,6 +193,14 @@ class Normaliser:
                 return [atom("NORM(" + norm(cur) + ")")]
             if r in ("builtins.float", "builtins.abs") and len(e.args) == 1:
                 return self.monos(e.args[0], env)
+            if r == "builtins.max" and len(e.args) == 2 and not e.keywords:
+                # max(x, 1) guards a count against 0 (no bond at all): for every train that is truncated it is x
+                for a, b in ((e.args[0], e.args[1]), (e.args[1], e.args[0])):
+                    if isinstance(b, ast.Constant) and b.value == 1:
+                        return self.monos(a, env)
+            cnt = self._filtered_count(e)
+            if cnt is not None:
+                return [atom(cnt)]
             if isinstance(e.func, ast.Name) and len(e.args) == 1 and not e.keywords and self._is_conversion(self.single_def.get(e.func.id)):
                 # a local `to_numpy = (lambda t: t.cpu().numpy()) if ... else (lambda t: t.numpy())`: a change of container, the same number
                 return self.monos(e.args[0], env)
@@ -209,6 +217,20 @@ class Normaliser:
                 return None
             return a + b
         return None
+
+    def _filtered_count(self, e):
+        """`sum([1 for n in X if c])`, `len([n for n in X if c])`, `sum(c for n in X)`: the number of elements of X that satisfy a condition - a
+        quantity that is at most len(X) and in general smaller (named COUNT-IF(X): it is not the number of bonds)"""
+        if not (isinstance(e, ast.Call) and isinstance(e.func, ast.Name) and e.func.id in ("sum", "len") and len(e.args) == 1 and not e.keywords):
+            return None
+        c = e.args[0]
+        if not isinstance(c, (ast.ListComp, ast.GeneratorExp)) or len(c.generators) != 1:
+            return None
+        g = c.generators[0]
+        filtered = bool(g.ifs) or (e.func.id == "sum" and isinstance(c.elt, (ast.Compare, ast.BoolOp)))
+        if not filtered:
+            return None
+        return "COUNT-IF(" + norm(g.iter) + ")"
 
     def strip(self, e):
         """e without value-preserving wrappers: conversion methods and local conversion lambdas"""
@@ -240,9 +262,9 @@ class Normaliser:
         c = test.comparators[0].value
         txt = self.canon(test.left).replace(" ", "")
         import re as _re
-        if _re.fullmatch(r"len\([^()]*\)", txt):
+        if _re.fullmatch(r"len\([A-Za-z_][\w.]*\)", txt):
             off = 0
-        elif _re.fullmatch(r"len\([^()]*\)-1", txt):
+        elif _re.fullmatch(r"len\([A-Za-z_][\w.]*\)-1", txt):
             off = 1
         else:
             return None
